@@ -24,8 +24,8 @@ impl Buffer for Vec<u8> { open spec fn bview(&self) -> Seq<u8> { self@ } }
 
 pub mod aead {
     use vstd::prelude::*;
-    #[verifier::external_body]
-    pub struct Error { _e: u8 }
+    /// aead::Error is a unit struct (the real code also constructs it)
+    pub struct Error;
 }
 pub mod aes_gcm { pub mod aead { pub use super::super::aead::Error; } }
 
@@ -66,9 +66,9 @@ impl CipherMethod {
             }
     { unimplemented!() }
     #[verifier::external_body]
-    pub fn nonce_size(&self) -> (r: usize) ensures r == self.nonce_len() { unimplemented!() }
+    pub const fn nonce_size(&self) -> (r: usize) ensures r == self.nonce_len() { unimplemented!() }
     #[verifier::external_body]
-    pub fn tag_size(&self) -> (r: usize) ensures r == 16 { unimplemented!() }
+    pub const fn tag_size(&self) -> (r: usize) ensures r == 16 { unimplemented!() }
     #[verifier::external_body]
-    pub fn ciphertext_overhead(&self) -> (r: usize) ensures r == 0 { unimplemented!() }
+    pub const fn ciphertext_overhead(&self) -> (r: usize) ensures r == 0 { unimplemented!() }
 }
